@@ -98,6 +98,7 @@ class State:
         self.cur_loop = []   # stack of loop ordinals
         self.exc = None      # exception class being handled (for bare raise)
         self.call_pre = None  # Snapshot before a callee (for old() inside callee ensures)
+        self.qdepth = 0      # >0 while translating the body of a quantifier / comprehension
 
     def snapshot(self):
         return Snapshot(self.env, self.heap)
